@@ -23,6 +23,7 @@ EXPLANATION = (
     "accesses, and dispatch_with_ctx takes at most one write guard per request (its function lookup is a separate read "
     "section by design: the callable must run with no lock held)."
     ' Every caller of set_pointer has seen its pointer non-empty, so the wholesale root replacement arm is unreachable from writes (structural necessary condition of `a root write merges`).'
+    ' No serde_json pointer() / pointer_mut() call resolves a pointer anywhere in the registry, and every value read_value can return is resolve_ref of the parsed pointer.'
 )
 ASSUMPTIONS = ["std::sync::RwLock gives reader/writer exclusion", "the functions map is changed only by register_function*, not by requests"]
 
@@ -39,6 +40,32 @@ def run(facts, R):
 
     def gt(i):
         return ["%s is %s" % (render_n(f["expr"], o), f["val"]) for f in facts_at(dw, s, facts, i)]
+    # ---------------- one pointer grammar: the registry's own parse_pointer + walkers decide what a pointer addresses (the empty pointer and
+    # "/" are the whole document, "~" escapes are validated, the index grammar is the crate's).  serde_json's `Value::pointer` implements
+    # a different RFC 6901 reading ("/" is the key "", a bad escape is a literal key): nothing in the registry resolves through it
+    n_fp = 0
+    for b_ in facts.bodies.values():
+        if not b_.path.startswith(("registry::", "<registry::")) or "::tests::" in b_.path:
+            continue
+        for i_, t_ in b_.calls():
+            if t_["callee"]["name"] in ("pointer", "pointer_mut") and "serde_json" in t_["callee"]["path"]:
+                n_fp += 1
+                R.check(False, "read-path-pure", b_.path, "pointers are resolved by the registry's own grammar only",
+                        "%s resolves a pointer with serde_json's %s: it reads \"/\" as the key \"\" and accepts malformed escapes as literal keys, so a hit there bypasses "
+                        "parse_pointer's rules (root read, InvalidPointer)" % (b_.path.rsplit("::", 1)[-1], t_["callee"]["name"]), t_.get("span"))
+    R.note("read-path-pure: serde_json pointer() calls in the registry: %d (none allowed)" % n_fp)
+    # ... stated positively for the direct read API: every value read_value can return is what resolve_ref found for the parsed pointer
+    rvb = facts.bodies.get(REG + "::read_value")
+    if rvb is not None:
+        from rules.common import value_rows as _vr
+        n_rv = 0
+        for g_, v_ in _vr(rvb, Sym(rvb), facts, 0):
+            if "from_residual(" in v_ and "resolve_ref(" not in v_ and "Ok{" not in v_:
+                continue        # the error of parse_pointer / of the lock
+            n_rv += 1
+            R.check("registry::resolve_ref(" in v_ and "registry::parse_pointer(arg2)" in v_, "read-path-pure", rvb.path, "a read returns what resolve_ref found for the parsed pointer",
+                    "read_value can return %s" % v_[:160], rvb.span, v_[:100])
+        R.floor("read-path-pure", n_rv, 1, "value rows of read_value")
     # ---------------- read-path-pure ----------------------------------------------------------------------
     def _none_fact(f):
         e, v = f["expr"], f["val"]
